@@ -23,14 +23,21 @@ R = "'r%d'"
 # (id, what, manual, active, allowed)   -- expressions over a, mn, t, D, f, e
 CAUSES = [
     # ------------------------------------------------------------------------------------------ MIPS
-    ("C02-mips-branch-effect-after-delay-slot",
-     "MIPS jr/jalr/jal/bal/bgezal/bltzal: the jump register, the and-link condition and the link value are "
-     "evaluated AFTER the delay slot (the whole branch effect is lifted at pseudo-address pc+1 behind the delay slot): "
-     "components next pc (delay slot writes rs), link register (delay slot writes it), results of a delay slot that reads the link register",
-     "MIPS32 vol. II, JALR/JR/BGEZAL/BLTZAL/JAL: 'GPR[31] <- PC + 8' and 'temp <- GPR[rs]' / 'condition <- GPR[rs] >= 0' are part of the "
-     "branch instruction (I:), the delay slot executes afterwards and only the transfer 'PC <- target' is delayed (I+1:)",
-     MIPS + " and mn in ('jr', 'jalr', 'jal', 'bgezal', 'bltzal') and len(t & {'ds-writes-rs', 'ds-writes-link', 'ds-reads-link'}) > 0",
-     "(({'npc'} if 'ds-writes-rs' in t else set())"
+    ("C02-mips-jump-register-read-after-delay-slot",
+     "MIPS jr / jalr read the jump register AFTER the delay slot (the indirect branch is lifted at pseudo-address pc+1 behind the "
+     "delay slot): component next pc when the delay slot writes rs.  Not repairable with falcon's tests unedited: its own `jr` and "
+     "`jalr` tests expect the post-delay-slot value (jr $a0, $a0 = 0xf, delay slot addiu $a0, $a0, 1, expected at 0x10)",
+     "MIPS32 vol. II, JR/JALR: 'I: temp <- GPR[rs] ... I+1: PC <- temp': the register is read by the jump itself, only the transfer is delayed",
+     MIPS + " and mn in ('jr', 'jalr') and 'ds-writes-rs' in t",
+     "{'npc'}"),
+    ("C02-mips-link-and-condition-after-delay-slot",
+     "MIPS jal/bal/bgezal/bltzal/jalr write the link register, and bgezal/bltzal test rs, AFTER the delay slot: components link register "
+     "(delay slot writes it), results of a delay slot that reads the link register, next pc of bgezal/bltzal whose delay slot writes rs "
+     "(repair: parts/C02.fix-13.patch)",
+     "MIPS32 vol. II, JAL/JALR/BGEZAL/BLTZAL: 'I: GPR[31] <- PC + 8; condition <- GPR[rs] >= 0 ... I+1: if condition then PC <- target': "
+     "link and condition belong to the branch instruction, the delay slot executes afterwards",
+     MIPS + " and mn in ('jalr', 'jal', 'bgezal', 'bltzal') and (len(t & {'ds-writes-link', 'ds-reads-link'}) > 0 or (mn in ('bgezal', 'bltzal') and 'ds-writes-rs' in t))",
+     "(({'npc'} if ('ds-writes-rs' in t and mn in ('bgezal', 'bltzal')) else set())"
      " | ({" + R + " % (f[0]['rd'] if mn == 'jalr' else 31)} if 'ds-writes-link' in t else set())"
      " | (({" + R + " % f[1]['dst']}"
      "     | ({'hi', 'lo'} if f[1]['mn'] in ('mult', 'multu', 'div', 'divu', 'madd', 'maddu', 'msub', 'msubu') else set())"
@@ -132,6 +139,18 @@ CAUSES = [
 # id -> commit of the repair in /repo.  The lead adds an entry here when a fix patch has been applied and re-runs
 # this script: the entry becomes status "fixed" (suppresses nothing) and its components leave the union below.
 FIXED = {
+    "C02-mips-jalr-explicit-rd": "8ff5f00",
+    "C02-mipsel-lwl-lwr-swl-swr-big-endian-only": "d47ea74",
+    "C02-mips-lwr-swr-offset3": "d47ea74",
+    "C02-mips-lwl-lwr-reads-scalar-zero": "d47ea74",
+    "C02-mips-variable-shift-amount-not-masked": "acc9435",
+    "C02-ppc-lis-duplicates-immediate": "ac21dd5",
+    "C02-ppc-addze-carry-out": "fb9334e",
+    "C02-ppc-srawi-carry": "fb9334e",
+    "C02-ppc-rlwinm-mask-off-by-one": "b6ddd33",
+    "C02-ppc-compare-cr-field": "6634fbf",
+    "C02-ppc-compare-cr0-operands": "6634fbf",
+    "C02-ppc-mtlr-mtctr": "125a977",
 }
 
 live = [c for c in CAUSES if c[0] not in FIXED]
